@@ -51,15 +51,23 @@ def image_case(src, asan, idx, seed, tier):
     r = e2v.rng(seed, "c06", idx)
     name, opts, size = r.choice(corrupt.IMG_CONFIGS)
     nx = len(corrupt.XATTR_VARIANTS)
-    if idx < 2 * nx:
-        name, opts, size = corrupt.IMG_CONFIGS[0 if idx < nx else 2]
+    nd_ = 2 * nx + 2 * len(corrupt.SB_VARIANTS) + 2 * len(corrupt.DX_VARIANTS)
+    if idx < nd_:
+        first_half = idx < nx or 2 * nx <= idx < 2 * nx + len(corrupt.SB_VARIANTS) or 2 * nx + 2 * len(corrupt.SB_VARIANTS) <= idx < nd_ - len(corrupt.DX_VARIANTS)
+        name, opts, size = corrupt.IMG_CONFIGS[0 if first_half else 2]
     base = corrupt.build_image(src, WORK, name, opts, size, 1)
     img = os.path.join(WORK, "m_%d.img" % idx)
     aux = os.path.join(WORK, "aux_%d" % idx)
     k = r.random()
+    ns = len(corrupt.SB_VARIANTS)
     if idx < 2 * nx:
         # boundary values of one attribute-block entry, checksums valid
         desc = corrupt.corrupt(base, img, r, directed=(corrupt.op_xattr_block, corrupt.XATTR_VARIANTS[idx % nx]))
+    elif idx < 2 * nx + 2 * ns:
+        # superblock geometry at and beyond what the open-time checks accept
+        desc = corrupt.corrupt(base, img, r, directed=(corrupt.op_superblock_geometry, corrupt.SB_VARIANTS[(idx - 2 * nx) % ns]))
+    elif idx < 2 * nx + 2 * ns + 2 * len(corrupt.DX_VARIANTS):
+        desc = corrupt.corrupt(base, img, r, directed=(corrupt.op_dx_node, corrupt.DX_VARIANTS[(idx - 2 * nx - 2 * ns) % len(corrupt.DX_VARIANTS)]))
     elif k < 0.6:
         desc = corrupt.corrupt(base, img, r)
     elif k < 0.8:
@@ -80,7 +88,8 @@ def image_case(src, asan, idx, seed, tier):
     bad = []
     nrun = 0
     invs = invocations(asan, img, aux)
-    chosen = invs if tier != "quick" else [invs[0], invs[1]] + r.sample(invs[2:], 5)
+    directed_case = idx < nd_
+    chosen = invs if (tier != "quick" or directed_case) else [invs[0], invs[1]] + r.sample(invs[2:], 5)
     pristine = open(img, "rb").read()
     for label, cmd, writes in chosen:
         subprocess.run(["rm", "-rf", aux])      # rdump of a damaged tree can be nested deeper than Python's recursion limit
@@ -361,7 +370,7 @@ def run(res, replay=None):
         corrupt.build_image(src, WORK, nm, op, sz, 1)
     rows, dbad = dirwalk_corr(src, hexe, mexe, seed, 40 if tier == "quick" else 2000)
     erows, ebad = ea_value_corr(src, mexe, seed, 6 if tier == "quick" else 150)
-    n_img, n_j, n_a = (48, 16, 16) if tier == "quick" else (4000, 1500, 800)
+    n_img, n_j, n_a = (86, 16, 16) if tier == "quick" else (4000, 1500, 800)
     with concurrent.futures.ThreadPoolExecutor(14) as ex:
         o1 = list(ex.map(lambda i: image_case(src, asan, i, seed, tier), range(n_img)))
         o2 = list(ex.map(lambda i: journal_case(src, asan, i, seed, tier), range(n_j)))
